@@ -68,10 +68,29 @@ def is_num(v):
     return isinstance(v, (int, float, fractions.Fraction)) and not isinstance(v, bool) or isinstance(v, bool)
 
 
+def nan_of(v):
+    """NaN flag (z3 Bool) of a scalar, or None when it cannot be NaN."""
+    if isinstance(v, SV):
+        return v.nan
+    if isinstance(v, float) and v != v:
+        return z3.BoolVal(True)
+    return None
+
+
+def any_nan(*vs):
+    flags = [f for f in (nan_of(v) for v in vs) if f is not None]
+    if not flags:
+        return None
+    r = z3.simplify(z3.Or(*flags)) if len(flags) > 1 else flags[0]
+    return None if z3.is_false(r) else r
+
+
 def to_z3(v):
-    """z3 term of a scalar value."""
+    """z3 term of a scalar value (the NaN flag, if any, is handled by the caller)."""
     if isinstance(v, SV):
         return v.t
+    if isinstance(v, float) and v != v:
+        return z3.RealVal(0)
     if isinstance(v, bool):
         return z3.BoolVal(v)
     if isinstance(v, enum.IntEnum):
@@ -130,7 +149,11 @@ def mk_ite(c, a, b):
     if a is None or b is None:
         raise Unsupported("ite over None")
     ta, tb = num_pair(a, b) if not (isinstance(a, (str,)) or isinstance(b, (str,))) else (to_z3(a), to_z3(b))
-    return SV(z3.If(ct, ta, tb))
+    na, nb = nan_of(a), nan_of(b)
+    nan = None
+    if na is not None or nb is not None:
+        nan = z3.simplify(z3.If(ct, na if na is not None else z3.BoolVal(False), nb if nb is not None else z3.BoolVal(False)))
+    return SV(z3.If(ct, ta, tb), nan)
 
 
 class Interp:
@@ -143,6 +166,7 @@ class Interp:
         self.lifted = {}
         self.call_hooks = []
         self.inline_log = set()
+        self.live_gens = []
 
     # ------------------------------------------------------------------ helpers
     def fail(self, kind, msg, node=None):
@@ -193,7 +217,7 @@ class Interp:
                     return False
                 return c
             if v.is_int or v.is_real:
-                return v.t != 0
+                return (v.t != 0) if v.nan is None else z3.Or(v.nan, v.t != 0)
             if v.is_str:
                 return z3.Length(v.t) > 0
         if isinstance(v, Obj):
@@ -205,6 +229,16 @@ class Interp:
                         return self.truth_sym(self.compare("!=", r, 0, node))
                     return self.truth_sym(r)
             return True
+        if isinstance(v, NDArr):
+            if all(isinstance(d, int) for d in v.shape):
+                size = 1
+                for d in v.shape:
+                    size *= d
+                if size == 1:
+                    return self.truth_sym(v.get(*[z3.IntVal(0)] * v.ndim), node)
+                if size == 0:
+                    return False
+            self.raise_exc(ValueError, "The truth value of an array with more than one element is ambiguous")
         if isinstance(v, SSeq):
             return self.truth_sym(self.compare("!=", v.length, 0, node))
         if isinstance(v, SRange):
@@ -285,7 +319,7 @@ class Interp:
             if isinstance(raw, staticmethod):
                 return raw.__func__
             return self.lift(raw)
-        if isinstance(obj, (SV, SStr, SSeq, SRange, LibObj, ExcVal)) or (
+        if isinstance(obj, (SV, SStr, SSeq, SRange, LibObj, ExcVal, NDArr)) or (
                 isinstance(obj, (tuple, list, dict, set)) and True):
             r = self.lib.getattr(self, obj, name, node)
             if r is _MISSING:
@@ -323,10 +357,12 @@ class Interp:
 
     def lift(self, v):
         """Bring a native value into the interpreter's value model."""
-        if isinstance(v, (SV, Obj, Func, Bound, SStr, SSeq, SRange, LibObj, ExcVal)):
+        if isinstance(v, (SV, Obj, Func, Bound, SStr, SSeq, SRange, LibObj, ExcVal, NDArr)):
             return v
         if isinstance(v, _IMMUTABLE_NATIVE):
             return v
+        if type(v).__module__ == "numpy" and type(v).__name__ == "ndarray":
+            return self.lib.numpy.coerce(self, v)
         if isinstance(v, tuple):
             return tuple(self.lift(x) for x in v) if any(not isinstance(x, _IMMUTABLE_NATIVE) for x in v) else v
         if isinstance(v, (list, dict, set)):
@@ -389,7 +425,16 @@ class Interp:
 
     # ------------------------------------------------------------------ operators
     def binop(self, op, a, b, node=None):
-        sym, dunder, rdunder = op if isinstance(op, tuple) else next(v for v in BINOPS.values() if v[0] == op)
+        if isinstance(op, tuple):
+            sym, dunder, rdunder = op
+        else:
+            sym, dunder, rdunder = next((v for v in list(BINOPS.values()) + list(CMPOPS.values()) if v[0] == op))
+        if isinstance(a, NDArr) or isinstance(b, NDArr):
+            if isinstance(a, Obj) or isinstance(b, Obj):
+                if isinstance(a, Obj):
+                    return self.obj_binop(sym, dunder, rdunder, a, b, node)
+                raise Unsupported("ndarray (op) object")
+            return self.lib.numpy.binop(self, sym, a, b, node)
         # object dispatch
         if isinstance(a, Obj) or isinstance(b, Obj):
             return self.obj_binop(sym, dunder, rdunder, a, b, node)
@@ -432,7 +477,7 @@ class Interp:
             self.fail("TypeError", str(e), node)
 
     def is_native_repo_instance(self, v):
-        if isinstance(v, (SV, Obj, Func, Bound, SStr, SSeq, SRange, LibObj, ExcVal)) or isinstance(v, _IMMUTABLE_NATIVE):
+        if isinstance(v, (SV, Obj, Func, Bound, SStr, SSeq, SRange, LibObj, ExcVal, NDArr)) or isinstance(v, _IMMUTABLE_NATIVE):
             return False
         if isinstance(v, (tuple, list, dict, set)):
             return False
@@ -472,12 +517,13 @@ class Interp:
         ta, tb = num_pair(a, b)
         if z3.is_string(ta) or z3.is_string(tb):
             return STR.binop(self, sym, a, b, node)
+        nan = any_nan(a, b)
         if sym == "+":
-            return SV(ta + tb)
+            return SV(ta + tb, nan)
         if sym == "-":
-            return SV(ta - tb)
+            return SV(ta - tb, nan)
         if sym == "*":
-            return SV(ta * tb)
+            return SV(ta * tb, nan)
         if sym == "/":
             if z3.is_int(ta):
                 ta, tb = z3.ToReal(ta), z3.ToReal(tb)
@@ -485,7 +531,13 @@ class Interp:
                 self.require("ZeroDivisionError", tb != 0, node)
             else:
                 self.ctx.note_assumption("x/0 on floats is not an exception (numpy semantics); value unspecified")
-            return SV(ta / tb)
+            return SV(ta / tb, nan)
+        if nan is not None and sym in ("==", "!=", "<", "<=", ">", ">="):
+            c = PYOPS[sym](ta, tb)
+            # IEEE: every comparison with NaN is False except !=
+            return SV(z3.simplify(z3.Or(nan, c) if sym == "!=" else z3.And(z3.Not(nan), c)))
+        if nan is not None:
+            raise Unsupported(f"operator {sym} on a possibly-NaN value")
         if sym in ("//", "%"):
             if z3.is_real(ta):
                 raise Unsupported("floor division / modulo on reals")
@@ -507,6 +559,10 @@ class Interp:
         return self.binop(op, a, b, node)
 
     def eq(self, a, b, node=None):
+        if (isinstance(a, NDArr) or isinstance(b, NDArr)) and not (isinstance(a, Obj) or isinstance(b, Obj)):
+            if a is None or b is None:
+                return False
+            return self.lib.numpy.binop(self, "==", a, b, node)
         if isinstance(a, Obj) or isinstance(b, Obj) or self.is_native_repo_instance(a) or self.is_native_repo_instance(b):
             a = self.lift_instance(a) if self.is_native_repo_instance(a) else a
             b = self.lift_instance(b) if self.is_native_repo_instance(b) else b
@@ -547,6 +603,8 @@ class Interp:
         if isinstance(op, ast.Not):
             t = self.truth_sym(v, node)
             return (not t) if isinstance(t, bool) else SV(z3.Not(t))
+        if isinstance(v, NDArr):
+            return self.lib.numpy.unary(self, op, v, node)
         if isinstance(v, Obj):
             dunder = {ast.USub: "__neg__", ast.UAdd: "__pos__", ast.Invert: "__invert__"}[type(op)]
             m = self.lookup_class_attr(v.cls, dunder)
@@ -555,7 +613,7 @@ class Interp:
             return self.call(self.bind_class_attr(v, v.cls, m, dunder), [], {}, node)
         if isinstance(v, SV):
             if isinstance(op, ast.USub):
-                return SV(-v.t)
+                return SV(-v.t, v.nan)
             if isinstance(op, ast.UAdd):
                 return v
             raise Unsupported("unary ~ on symbolic")
@@ -594,6 +652,13 @@ class Interp:
                 r = hook(self, fn, args, kwargs, node)
                 if r is not _MISSING:
                     return r
+            sm = self.summaries.get(fn) if self.depth >= 1 else None
+            if sm is not None:
+                # modular step: the callee is represented by its (separately proved) contract
+                getattr(self, "summaries_used", set()).add(sm.target)
+                fi, fnode = S.find_node_for_code(fn.__code__)
+                S.record_use(fi, fnode, f"{fn.__module__}:{fn.__qualname__} (via contract)")
+                return sm.handler(self, args, kwargs, node)
             return self.call_func(self.make_func(fn), args, kwargs, node)
         if isinstance(fn, type):
             return self.instantiate(fn, args, kwargs, node)
@@ -712,12 +777,7 @@ class Interp:
             if isinstance(f.node, ast.Lambda):
                 return self.eval(f.node.body, frame)
             if self.is_generator(f.node):
-                frame.yields = []
-                try:
-                    self.exec_block(f.node.body, frame)
-                except _Return:
-                    pass
-                return tuple_iter(frame.yields)
+                return self.make_lazy_gen(f, frame)
             try:
                 self.exec_block(f.node.body, frame)
             except _Return as r:
@@ -726,6 +786,26 @@ class Interp:
         finally:
             self.depth -= 1
             self.cur_file = saved_file
+
+    def make_lazy_gen(self, f, frame):
+        interp = self
+        fname = self.cur_file
+
+        def run():
+            interp.cur_file = fname
+            try:
+                interp.exec_block(f.node.body, frame)
+            except _Return:
+                pass
+        g = LazyGen(self, run)
+        frame.yields = g
+        self.live_gens.append(g)
+        return g
+
+    def close_generators(self):
+        for g in self.live_gens:
+            g.close()
+        self.live_gens = []
 
     _gen_cache = {}
 
@@ -1350,6 +1430,8 @@ class Interp:
         return self.eval_index(e, frame)
 
     def getitem(self, o, idx, node=None):
+        if isinstance(o, NDArr):
+            return self.lib.numpy.getitem(self, o, idx, node)
         if isinstance(o, Obj):
             m = self.lookup_class_attr(o.cls, "__getitem__")
             if m is _MISSING:
@@ -1433,6 +1515,9 @@ class Interp:
         raise Infeasible()
 
     def setitem(self, o, idx, v, node=None):
+        if isinstance(o, NDArr):
+            self.lib.numpy.setitem(self, o, idx, v, node)
+            return
         if isinstance(o, Obj):
             m = self.lookup_class_attr(o.cls, "__setitem__")
             if m is _MISSING:
@@ -1468,6 +1553,17 @@ class Interp:
             return list(v)
         if isinstance(v, tuple_iter):
             return list(v.items)
+        if isinstance(v, NDArr):
+            return self.lib.numpy.iterate(self, v, node)
+        if isinstance(v, LazyGen):
+            out = []
+            while True:
+                x = v.next()
+                if x is LazyGen.DONE:
+                    return out
+                out.append(x)
+                if len(out) > 5000:
+                    raise Unsupported("materialising an (apparently) infinite generator")
         if isinstance(v, dict):
             return list(v.keys())
         if isinstance(v, (set, frozenset)):
@@ -1500,6 +1596,10 @@ class Interp:
                 return
             g = gens[i]
             src = self.eval(g.iter, fr)
+            if isinstance(src, Obj):
+                m = self.lookup_class_attr(src.cls, "__iter__")
+                if m is not _MISSING:
+                    src = self.call(Bound(m, src), [], {}, g.iter)
             sym = self.lib.symbolic_comprehension_source(self, src)
             if sym is not None:
                 raise _SymComp(i, src)
@@ -1554,14 +1654,23 @@ class Interp:
             fr = fr.parent
         if fr is None:
             raise Unsupported("yield outside generator frame")
-        fr.yields.append(self.eval(e.value, frame) if e.value is not None else None)
+        fr.yields.emit(self.eval(e.value, frame) if e.value is not None else None)
         return None
 
     def eval_YieldFrom(self, e, frame):
         fr = frame
         while fr is not None and fr.yields is None:
             fr = fr.parent
-        fr.yields.extend(self.iterate(self.eval(e.value, frame), e))
+        src = self.eval(e.value, frame)
+        if isinstance(src, LazyGen):
+            while True:
+                v = src.next()
+                if v is LazyGen.DONE:
+                    break
+                fr.yields.emit(v)
+            return None
+        for v in self.iterate(src, e):
+            fr.yields.emit(v)
         return None
 
     def eval_NamedExpr(self, e, frame):
@@ -1607,3 +1716,80 @@ class tuple_iter:
     def __init__(self, items):
         self.items = list(items)
         self.pos = 0
+
+
+import threading
+threading.stack_size(256 * 1024 * 1024)
+import sys as _sys
+_sys.setrecursionlimit(20000)
+
+
+class _GenAbort(BaseException):
+    pass
+
+
+class LazyGen:
+    """A generator of the analysed code, executed lazily in its own (strictly alternating) thread."""
+    DONE = object()
+
+    def __init__(self, interp, run):
+        self.interp = interp
+        self.run = run
+        self.req = threading.Semaphore(0)
+        self.resp = threading.Semaphore(0)
+        self.state = "new"
+        self.value = None
+        self.exc = None
+        self.abort = False
+        self.thread = None
+
+    def _body(self):
+        self.req.acquire()
+        try:
+            if self.abort:
+                raise _GenAbort()
+            self.run()
+        except _GenAbort:
+            pass
+        except BaseException as e:     # noqa: propagate to the consumer
+            self.exc = e
+        self.state = "done"
+        self.resp.release()
+
+    def next(self):
+        if self.state == "done":
+            return LazyGen.DONE
+        I = self.interp
+        saved = (I.depth, getattr(I, "cur_file", None))
+        if self.state == "new":
+            self.thread = threading.Thread(target=self._body, daemon=True)
+            self.thread.start()
+            self.state = "running"
+        self.req.release()
+        self.resp.acquire()
+        I.depth, I.cur_file = saved
+        if self.exc is not None:
+            e, self.exc = self.exc, None
+            raise e
+        if self.state == "done":
+            return LazyGen.DONE
+        return self.value
+
+    def emit(self, v):
+        self.value = v
+        self.state = "suspended"
+        self.resp.release()
+        self.req.acquire()
+        if self.abort:
+            raise _GenAbort()
+        self.state = "running"
+
+    def close(self):
+        if self.state in ("suspended", "running") and self.thread is not None and self.thread.is_alive():
+            self.abort = True
+            self.req.release()
+            self.thread.join(timeout=5)
+        self.state = "done"
+
+
+from .ndarray import NDArr  # noqa: E402  (ndarray imports helpers defined above)
